@@ -146,6 +146,23 @@ def zero_axis_cases():
                 cs.append("toarray %s %d %d" % (fmt(sh), a, i))
             if a < d:
                 cs.append("sum %s %d -" % (fmt(sh), a))
+    # ... and empty arrays whose other axes are as long as usize allows: their strides saturate (F22), and the start of an axis
+    # view, `index * stride`, must not be computed in a way that overflows (F27) - the view exists and is empty
+    M = 2**64 - 1
+    for sh in ([0, 3, M], [0, 3, M, M], [3, 0, M, M], [2, 0, M, 3], [0, M], [0, 2, 2**63], [0, 2**32, 2**32], [1, 0, 4, M, 2], [0, 5, 2**62, 4]):
+        d = len(sh)
+        cs.append("indices %s 2" % fmt(sh))
+        cs.append("get %s %s" % (fmt(sh), fmt([0] * d)))
+        cs.append("getmut %s %s" % (fmt(sh), fmt([max(n - 1, 0) for n in sh])))
+        for a in range(d + 1):
+            n = sh[a] if a < d else 0
+            if n <= 8:
+                cs.append("axisiter %s %d %d" % (fmt(sh), a, n + 2))
+                for what in ("count", "last", "foreach"):
+                    cs.append("axisfold %s %d 0 %s" % (fmt(sh), a, what))
+            for i in sorted(set([0, 1, 2, n // 2, max(n - 1, 0), n])):
+                cs.append("getaxis %s %d %d" % (fmt(sh), a, i))
+                cs.append("view %s %d %d 2" % (fmt(sh), a, i))
     return cs
 
 
